@@ -5,7 +5,8 @@ src = open('/verif/harness/pkg/cl/zz_verif_c07.go').read()
 names = re.findall(r'^\t"([\w-]+)",\s+// \d+', src, re.M)
 NC = len(names)
 NX = int(re.search(r'zzC07NExits\s*=\s*(\d+)', src).group(1))
-OVR = {"github.com/ohler55/slip.ObjectString": "github.com/ohler55/slip/pkg/cl.zzStubObjectString"}
+OVR = {"github.com/ohler55/slip.ObjectString": "github.com/ohler55/slip/pkg/cl.zzStubObjectString",
+       "(*github.com/ohler55/slip/pkg/cl.Open).openFile": "github.com/ohler55/slip/pkg/cl.zzStubOpenFile"}
 d1 = [[-1,-1,-1,x] for x in range(NX)] + [[c,-1,-1,x] for c in range(NC) for x in range(NX)]
 def d2(mod, r=0):
     return [[c0,c1,-1,x] for c0 in range(NC) for c1 in range(NC) for x in range(NX) if (c0*13+c1*7+x*3) % mod == r]
@@ -23,7 +24,7 @@ NOTE = ("Program = (block b0 pre C0[C1[C2[EXIT]]] post): up to three nested carr
   "progn/prog1/function argument, let/let* body and init, setq value, if/when/unless/cond/case/and/or test and body positions, "
   "dolist/dotimes/do/do* body, count/list, test, init and result forms, funcall/lambda-call/mapcar/defun bodies and arguments, "
   "multiple-value-bind, block, tagbody with symbol and integer tags, unwind-protect protected and cleanup position, ignore-errors, "
-  "gi recover, gi with-mutex-lock, values, return-from value) around one of %d exits (fall through; return-from the outermost / "
+  "gi recover, gi with-mutex-lock, with-open-file, values, return-from value) around one of %d exits (fall through; return-from the outermost / "
   "the nearest / the defun's block; return; go forward / backward (guarded by a counter) to the nearest / outermost tagbody; "
   "(error ..), (/ 1 0), unbound variable, (car 5), undefined function; return-from with two values; exits guarded by a symbolic "
   "test). Trace markers (zzvtrace, symbolic values) before and after the hole of every carrier and in every cleanup form. "
@@ -34,19 +35,21 @@ NOTE = ("Program = (block b0 pre C0[C1[C2[EXIT]]] post): up to three nested carr
   "no exit marker escaping as a value, no Go fault, and in the engine that no sync.Mutex is held at the end (vrt.HeldLocks; an "
   "unlock of an unlocked mutex ends the path as badunlock). Stub: slip.ObjectString -> constant (error/stack text only). "
   "An evaluation budget (Scope.InterruptCheck, 400 function evaluations) turns wrong non-termination into a panic. "
-  "Not covered: with-open-file (the engine has no file system), handler-case/restarts, exits out of method bodies, depth >= 4. "
+  "with-open-file: the engine has no file system, so (*Open).openFile is replaced by a stub returning an object that counts "
+  "its Close calls (asserted: exactly one, on every path); binding, body evaluation and the deferred close are the real code; the "
+  "native replay opens /dev/null and asserts that a second close fails. Not covered: the open options, handler-case/restarts, exits out of method bodies, depth >= 4. "
   "Carve-outs: region predicates over the positions at which the reference run saw an exit leave a sub-form (form/position/kind)."
   ) % (NC, NX)
 spec = [
  {"id": "C07.exit", "property": "C07", "pkg": "pkg/cl", "entry": "VerifC07Exit", "extra_files": ["zz_verif_c01.go"],
   "cases": {"quick": quick, "thorough": thorough}, "reach": ["compared", "agreed", "agreed-error"],
-  "max_depth": 400, "max_steps": 20000000, "solver_timeout_ms": 10000, "carves": [], "overrides": OVR,
+  "max_depth": 400, "max_steps": 20000000, "solver_timeout_ms": 10000, "int_mode": True, "carves": [], "overrides": OVR,
   "note": NOTE + " Bounds: quick = every carrier x every exit (%d) + 1/60 of the %d two-carrier nests (%d); thorough = a quarter of the two-carrier "
           "nests + 1/800 of the %d three-carrier nests." % (len(d1), NC*NC*NX, len(d2(60)), NC*NC*NC*NX),
   "assumptions": ["dotimes counts -1..2, do/do* <= 2 iterations, <= 8 backward jumps, <= 12 function calls per program"]},
  {"id": "C07.findings", "property": "C07", "pkg": "pkg/cl", "entry": "VerifC07Exit", "extra_files": ["zz_verif_c01.go"],
   "cases": {"quick": findings, "thorough": findings}, "reach": ["compared"],
-  "max_depth": 400, "max_steps": 20000000, "solver_timeout_ms": 10000, "carves": CARVES, "overrides": OVR,
+  "max_depth": 400, "max_steps": 20000000, "solver_timeout_ms": 10000, "int_mode": True, "carves": CARVES, "overrides": OVR,
   "note": "Same entry as C07.exit on one program per known finding; the probe runs confirm that each finding still reproduces inside its region."},
 ]
 json.dump(spec, open('/verif/harness/obligations.d/C07.json', 'w'), indent=0)
